@@ -80,6 +80,22 @@ SecondOperands(sp) ==
   {Leaf("L2sq"), Leaf("L1"), Mk("Quad", QZero, QOne, RConst(n, QI(2)), PVecT(n), <<>>)} \cup
   (IF sp.kind = "pspace" THEN {} ELSE {LeafS("Huber", Q(1, 2))})
 
+\* FunctionalQuadraticPerturb(f, quadratic_coeff, linear_term, constant): every combination of
+\* {coefficient zero / nonzero} x {linear term absent / explicitly zero / nonzero} x {constant zero / nonzero}
+\* (the three parts are handled by separate branches of value, gradient, proximal and convex conjugate), and the
+\* Bregman distance with the sub-gradient 0 (at a minimiser): its internal perturbation has a ZERO linear term and the
+\* constant -f(point).  Run partitioning: a grid member is applied directly on a leaf, and only .convex_conj is
+\* stacked on it (GridOk) - the grid multiplies the programs of depth 1, not those of depth 2.
+GridRules(n) ==
+  ({Rule("QuadPert", a, c, <<>>, u) : a \in {QZero, Q(1, 2)}, c \in {QZero, QI(-1)},
+                                      u \in {<<>>, RConst(n, QZero), PVecT(n)}}
+     \ {Rule("QuadPert", Q(1, 2), QZero, <<>>, <<>>)}) \cup          \* (member of the core list below)
+  {Rule("Bregman", QZero, QZero, PVecY(n), RConst(n, QZero))}
+GridOk(r, e) ==
+  LET G == GridRules(Dim(e.sp)) IN
+  IF r \in G THEN e.k = 0
+  ELSE IF ~IsLeaf(e.f) /\ Rule(e.f.op, e.f.s, e.f.c, e.f.v, e.f.u) \in G THEN r.op = "Conj"
+  ELSE TRUE
 UnaryRulesAll(sp) ==
   LET n == Dim(sp) IN
   {Rule("Translate", QZero, QZero, <<>>, PVecT(n)),
@@ -92,7 +108,7 @@ UnaryRulesAll(sp) ==
    Rule("QuadPert", QZero, QOne, <<>>, PVecT(n)),                         \* + <x,u> + 1
    Rule("QuadPert", QOne, QI(-1), <<>>, PVecT(n)),                        \* + |x|^2 + <x,u> - 1
    Rule("Conj", QZero, QZero, <<>>, <<>>),
-   Rule("Bregman", QZero, QZero, PVecY(n), PVecP(n))} \cup
+   Rule("Bregman", QZero, QZero, PVecY(n), PVecP(n))} \cup GridRules(n) \cup
   (IF sp.kind \in {"rn", "rnw"} THEN {Rule("Comp", QZero, QZero, Shear(n), <<>>)} ELSE {}) \cup
   \* nonlinear inner operators with domain = range: PowerOperator(2), PowerOperator(3)
   (IF sp.m = 1 THEN {Rule("CompPow", QI(2), QZero, <<>>, <<>>), Rule("CompPow", QI(3), QZero, <<>>, <<>>)} ELSE {})
@@ -134,6 +150,7 @@ Unary      == /\ Len(stack) >= 1 /\ Budget + 1 <= Depth
                  /\ DeepOk(e)
                  /\ \E r \in UnaryRules(e.sp) :
                       /\ Applicable(r, e)
+                      /\ GridOk(r, e)
                       /\ stack' = [stack EXCEPT ![Len(stack)] = Entry(e.sp, Apply(r, e.f), e.k + 1)]
 Binary     == /\ Len(stack) = 2 /\ Budget <= Depth
               /\ IF stack[1].sp.kind = "part"
